@@ -325,7 +325,7 @@ def finish(res, level_extra=None):
     """known-finding filtering, evidence file, VIOLATION lines, exit code"""
     # a run in which no case was non-trivial decides nothing: it must not pass silently (e.g. every generated program
     # rejected by the parser)
-    if res.evaluations > 0 and len(res.nontrivial) == 0 and not res.violations:
+    if res.evaluations > 0 and len(res.nontrivial) == 0:
         res.broken.append("coverage: %d evaluations, none of them non-trivial (nothing was actually exercised)" % res.evaluations)
     findings = [f for f in load_findings()
                 if res.pid in f.get("properties", [f["property"]]) and f.get("status") == "open"]
@@ -355,6 +355,11 @@ def finish(res, level_extra=None):
             seen_known[hit["id"]] = (hit, seen_known[hit["id"]][1] + 1)
         else:
             unlisted.append(v)
+    if res.broken and not unlisted:
+        # a proof obligation / the tie / the correspondence no longer checks and the search found no input on which the
+        # property itself fails (an occurrence of a listed known finding does not explain a broken tie)
+        unlisted.append(dict(what="no longer shown to hold: " + "; ".join(res.broken)[:1500], replay=dict(broken=res.broken),
+                             signature=dict(oracle="proof", broken=res.broken[0][:80]), kind="broken-proof-or-tie"))
     for fid, (f, n) in seen_known.items():
         print("KNOWN-FINDING: property=%s %s (%s; %d occurrence(s) this run; witness: %s)" %
               (res.pid, f["what"], fid, n, f.get("witness", "")))
